@@ -139,8 +139,31 @@ def outcome(r):
     return ("ok", v)
 
 
+def known_witness(ctx):
+    """the minimised history of the known finding (planner success depends on which expression interned a
+    compound unit first), run as P1 / P2 / P3 exactly like a generated case"""
+    u = [f"zqc08w{ctx.seed}u{i}" for i in range(4)]
+    defs = [["define", n, n, ["dimname", "mass"]] for n in u]
+    decls = [["declare", ["u", u[1]], ["f", (0.125).hex()], ["u", u[2]]], ["declare", ["u", u[2]], ["i", 8], ["u", u[0]]],
+             ["declare", ["u", u[3]], ["i", 128], ["u", u[0]]]]
+    early = ["lt", ["f", (-79.3125).hex()], ["mul", ["pow", ["u", u[1]], -1], ["pow", ["u", u[2]], 2]], ["i", 41], ["u", u[3]]]
+    final = ["convert", ["f", (16.25).hex()], ["mul", ["pow", ["u", u[2]], 2], ["pow", ["u", u[1]], -1]], ["mul", ["pow", ["u", u[3]], 2], ["pow", ["u", u[1]], -1]]]
+    p1 = synth.run_spec({"modules": [], "ops": defs + [early] + decls + [final]})
+    p2 = synth.run_spec({"modules": [], "ops": defs + decls + [final]})
+    p3 = synth.run_spec({"modules": [], "ops": defs + [["build", [early[2], early[4]]]] + decls + [final]})
+    ctx.count("witnesses_rerun")
+    if any("inconclusive" in x or x.get("fatal") for x in (p1, p2, p3)):
+        return
+    f1, f2, f3 = (outcome(x["results"][-1]) for x in (p1, p2, p3))
+    still = f1 != f2 and f3 == f1
+    ctx.witness("C08:history-dependent:interning-order:failure-vs-value", still)
+    if f1 != f2 and f3 != f1:
+        ctx.violation("C08:history-dependent:stale-failure", f"witness history: {f1} after an earlier query, {f2} in a fresh process, {f3} when only building", {"ops": defs + [early] + decls + [final]})
+
+
 def run(ctx):
     rng = ctx.rng
+    known_witness(ctx)
     n = ctx.scale(128, 3000)
     cases = []
     for i in range(n):
